@@ -114,3 +114,12 @@ Example ex_seq :
   /\ values = [Some (Ok (inl (s "out(a;f(x=1))")));
                Some (Ok (inl (s "h(c=g(a=out(a;f(x=1)),b=out(b;f(x=1))),a=out(a;f(x=1)))")))].
 Proof. vm_compute. auto. Qed.
+
+(* ---------- keyword values that contain deferred objects (Model/LazyXref.v: templates) ---------- *)
+From Verif Require Import Model.LazyXref.
+(* a keyword value without a deferred object inside (no marker) is an ordinary value: evaluate_lazy leaves it alone,
+   and it contributes no edge and no dependency - the template machinery is conservative over Lazy / LazySeq *)
+Theorem C18_plain_value_is_inert : forall rec v st,
+  plain v -> subst rec v None st [] = (st, Ok v) /\ refs_shallow v = [] /\ refs_all v = [].
+Proof. exact plain_value_is_inert. Qed.
+Print Assumptions C18_plain_value_is_inert.
